@@ -2566,7 +2566,11 @@ int32 parseCertificateRequest(ssl_t *ssl,
         while (len >= 2)
         {
             uint32_t val = HASH_SIG_MASK(c[0], c[1]);
-            keySelect->peerSigAlgs[nSigAlg++] = val;
+            /* the list is as long as the server likes; store what fits */
+            if (nSigAlg < TLS_MAX_SIGNATURE_ALGORITHMS)
+            {
+                keySelect->peerSigAlgs[nSigAlg++] = val;
+            }
             ssl->peerSigAlg |= val;
             c += 2;
             len -= 2;
